@@ -8,6 +8,8 @@ import (
 
 	"github.com/pion/rtcp"
 	"github.com/pion/rtp"
+
+	"github.com/bluenviron/gortsplib/v5"
 )
 
 // ---------------------------------------------------------------- conversation model
@@ -301,6 +303,36 @@ func wsConv() []Step {
 	return c
 }
 
+// keyMgmt is a well-formed KeyMgmt header value for the SETUP of the given track (fixed length).
+func keyMgmt(track int) string {
+	v, err := gortsplib.VerifC11KeyMgmt(fmt.Sprintf("%s/trackID=%d", baseURL, track), []uint32{0x1234 + uint32(track)})
+	if err != nil || len(v) != 1 {
+		panic(fmt.Sprint("cannot build a KeyMgmt header: ", err))
+	}
+	return v[0]
+}
+
+func secure(c []Step) []Step {
+	for i := range c {
+		if c[i].Method == "SETUP" {
+			ti, _ := c[i].hdr("Transport")
+			c[i].Hdrs[ti].V = strings.Replace(c[i].Hdrs[ti].V, "RTP/AVP", "RTP/SAVP", 1)
+			c[i].Hdrs = append(c[i].Hdrs, Hdr{"KeyMgmt", keyMgmt(i - 2)})
+		}
+	}
+	return c
+}
+
+// secureConvNames exist only when the server has a TLS configuration (RTP/SAVP is refused otherwise).
+var secureConvNames = []string{"play-tcp-secure", "record-tcp-secure"}
+
+func convsFor(tls bool) []string {
+	if tls {
+		return append(append([]string{}, convNames...), secureConvNames...)
+	}
+	return convNames
+}
+
 var convNames = []string{"play-tcp", "play-udp", "record-tcp", "record-udp", "http-tunnel", "websocket", "auth-describe"}
 
 func baseConv(name string) []Step {
@@ -319,6 +351,10 @@ func baseConv(name string) []Step {
 		return wsConv()
 	case "auth-describe":
 		return authConv()
+	case "play-tcp-secure":
+		return secure(playConv("tcp"))
+	case "record-tcp-secure":
+		return secure(recordConv("tcp"))
 	}
 	panic("unknown conversation " + name)
 }
